@@ -19,8 +19,9 @@ git apply "$out/patch.diff" || { echo "patch does not apply to HEAD"; exit 2; }
 bash "$out/demo.sh" "$wt" >> "$log" 2>&1; patched_rc=$?
 git clean -fdq -e target          # remove demo files, keep the patch
 suite_rc=-1; suite_tail=""
+if [ "$skip" = "--reuse-suite" ] && grep -q "tests run" "$out/suite.log" 2>/dev/null; then reuse=1; else reuse=0; fi
 if [ "$skip" != "--skip-suite" ]; then
-  cargo nextest run --workspace --no-fail-fast --test-threads 8 --offline > "$out/suite.log" 2>&1; suite_rc=$?
+  [ $reuse -eq 1 ] || cargo nextest run --workspace --no-fail-fast --test-threads 8 --offline > "$out/suite.log" 2>&1; suite_rc=$?
   suite_tail=$(grep -E "Summary|tests run" "$out/suite.log" | tail -2 | tr '\n' ' ')
   # failures that are NOT in the baseline's own always_fail / flaky / dropped-offline lists
   new_fail=$(python3 - "$out/suite.log" <<'P'
@@ -29,7 +30,7 @@ b=json.load(open('/root/.vp/BASELINE.json'))
 allowed=set(b.get('always_fail',[]))|set(b.get('flaky',[]))|set(b.get('dropped_after_offline',[]))
 bad=set()
 for l in open(sys.argv[1],errors='replace'):
-    m=re.match(r'\s*(?:FAIL|SIGABRT|SIGSEGV|TIMEOUT|ABORT)\s+\[[^\]]*\]\s+(\S+)\s+(\S+)',re.sub(r'\x1b\[[0-9;]*m','',l))
+    m=re.match(r'\s*(?:FAIL|SIGABRT|SIGSEGV|TIMEOUT|ABORT)\s+\[[^\]]*\]\s+(?:\(\s*\d+/\d+\)\s+)?(\S+)\s+(\S+)',re.sub(r'\x1b\[[0-9;]*m','',l))
     if m:
         n=m.group(1)+'::'+m.group(2)
         if n not in allowed: bad.add(n)
